@@ -422,15 +422,18 @@ def main():
 
     # ---------------- histories ----------------
     for solver in ("History", "HistoryDamage", "BoundConstrain"):
-        for split in (["Amor", "Miehe"] if not thorough else ["Bourdin", "Amor", "Miehe", "AnisotStress", "He", "Zhang"]):
-            mesh = M.mesh_2d("QUAD4", 2.0, 1.0, 0.5)
+        for split, meshname in [(sp_, "QUAD4") for sp_ in (["Amor", "Miehe"] if not thorough else ["Bourdin", "Amor", "Miehe", "AnisotStress", "He", "Zhang"])] + [("Miehe", "TRI3+QUAD4")]:
+            # the last one: a mesh with two element groups of the main dimension (triangles glued to quadrangles)
+            mesh = M.mesh_2d("QUAD4", 2.0, 1.0, 0.5) if meshname == "QUAD4" else M.mesh_mixed_2d(h=1 / 2)
+            xmax = 2.0 if meshname == "QUAD4" else 3.0
+            sfx = "" if meshname == "QUAD4" else f" mesh={meshname}"
             mat = E_.Isotropic(2, E=210.0, v=0.3, planeStress=True, thickness=1.0)
             pfm = Models.PhaseField(mat, split, "AT2", 0.5, 0.4, solver=solver)
             s = Simulations.PhaseField(mesh, pfm)
             left = mesh.Nodes_Conditions(lambda x, y, z: x == 0)
-            right = mesh.Nodes_Conditions(lambda x, y, z: x == 2.0)
+            right = mesh.Nodes_Conditions(lambda x, y, z: x == xmax)
             loads = [0.0, 0.0] + [rng.choice([0.02, 0.04, 0.06, -0.03, 0.01, 0.0, 0.08, -0.05]) for _ in range(5 if not thorough else 8)]
-            ident = dict(solver=solver, split=split, loads=loads)
+            ident = dict(solver=solver, split=split, loads=loads, mesh=meshname)
             prevd, prevH = None, None
             ok = True
             for k, ld in enumerate(loads):
@@ -441,25 +444,25 @@ def main():
                     s.Solve(tolConv=rng.choice([1.0, 1e-2, 1e-4]), maxIter=6)   # several staggered iterations inside one step
                     s.Save_Iter()
                 except Exception as ex:  # noqa: BLE001
-                    res.notes.append(f"history {solver}/{split}: solve raised {type(ex).__name__} at step {k}")
+                    res.fail(f"history solve raises solver={solver} split={split}{sfx}", f"{type(ex).__name__} at step {k}: {str(ex)[:120]}", ident)
                     ok = False
                     break
                 d = np.asarray(s.damage).copy()
                 Hn = np.asarray(s.Result("psiP", nodeValues=False), dtype=float).copy()
-                res.case((solver, split, k))
+                res.case((solver, split, meshname, k))
                 if not np.all(np.isfinite(d)):
-                    res.fail(f"damage non-finite solver={solver} split={split}", f"damage contains NaN / inf at step {k}", ident)
+                    res.fail(f"damage non-finite solver={solver} split={split}{sfx}", f"damage contains NaN / inf at step {k}", ident)
                     break
                 if all(l == 0.0 for l in loads[:k + 1]) and not (np.abs(d).max() <= 1e-12):
-                    res.fail(f"damage without loading solver={solver} split={split}", f"max damage {np.abs(d).max():.2e} after {k + 1} steps without loading", ident)
+                    res.fail(f"damage without loading solver={solver} split={split}{sfx}", f"max damage {np.abs(d).max():.2e} after {k + 1} steps without loading", ident)
                     break
                 # the property states nodal irreversibility for the damage-based solvers only (History drives the damage
                 # through the monotone history energy; its discrete damage is not monotone node by node)
                 if solver != "History" and prevd is not None and not ((d - prevd).min() >= -1e-9):
-                    res.fail(f"damage decreases solver={solver}", f"damage decreases by {-(d - prevd).min():.2e} between saved steps {k - 1} and {k} (split {split})", ident)
+                    res.fail(f"damage decreases solver={solver}{sfx}", f"damage decreases by {-(d - prevd).min():.2e} between saved steps {k - 1} and {k} (split {split})", ident)
                     break
                 if solver == "History" and prevH is not None and not ((Hn - prevH).min() >= -1e-9 * (1 + np.abs(prevH).max())):
-                    res.fail("history energy decreases", f"the driving energy decreases by {-(Hn - prevH).min():.2e} between saved steps {k - 1} and {k} (split {split})", ident)
+                    res.fail("history energy decreases" + sfx, f"the driving energy decreases by {-(Hn - prevH).min():.2e} between saved steps {k - 1} and {k} (split {split})", ident)
                     break
                 prevd, prevH = d, Hn
             res.count(f"history:{solver}")
